@@ -1,3 +1,5 @@
 import ElkVerif.AuditLib
 import ElkVerif.Props.C01
+import ElkVerif.Props.C01B
 #audit_obligations C01 [sound_A, preservation_A, errors_A]
+#audit_obligations C01B [sound_B, sound_C, preservation_B, prog_sound, block_sound, stmt_sound, expr_sound_B, block_never_stuck, call_sound, closure_call_sound, checker_extends_A, hasTy_extends_A, checker_fuel_mono, sound_accepted]
